@@ -90,8 +90,11 @@ def check(sd: Path, tiers: tuple[str, ...] = ("quick", "thorough"), props: list[
                 r = subprocess.run([str(ROOT / "check"), prop, "--tier", tier], capture_output=True, text=True,
                                    env={**os.environ, "VERIF_REPO": str(d)}, cwd=ROOT)
                 keys = sorted({ln.split("key=")[1].split(":")[0] for ln in r.stdout.splitlines() if "key=" in ln})
-                row["checks"][f"{prop}/{tier}"] = {"exit": r.returncode, "keys": keys[:5], "s": round(time.time() - t0, 1)}
-                if r.returncode == 1:
+                rc = r.returncode
+                if rc == 1 and "VIOLATION property=" not in r.stdout:
+                    rc = 2      # exit status 1 without a VIOLATION line is a crash of the machinery, not a catch
+                row["checks"][f"{prop}/{tier}"] = {"exit": rc, "keys": keys[:5], "s": round(time.time() - t0, 1)}
+                if rc == 1:
                     break
     finally:
         shutil.rmtree(d, ignore_errors=True)
